@@ -84,13 +84,16 @@ def src_limits():
     return out
 
 
-def record_all(sources, modes=("collect",), listing=False):
+def record_all(sources, modes=("collect",), listing=False, iff=0):
+    """iff: evaluate the rejected-iff-not-a-sentence-or-faulty predicate (P_C14_Iff) on the first `iff` sources (it costs a second spec run)"""
     recs = []
+    k = 0
     for name, s, dialect in sources:
         if known_finding_input(s):
             continue
+        k += 1
         for m in modes:
-            recs.append(R.record(f"{name}|{m}", s, dialect, m, listing=listing and m == "collect"))
+            recs.append(R.record(f"{name}|{m}", s, dialect, m, listing=listing and m == "collect", iff=k <= iff and m == "collect" and s.count("\n") <= 300))
     return recs
 
 
